@@ -1,14 +1,21 @@
-use std::{thread, io::stdin, sync::mpsc::{self, Receiver}};
+use std::{thread, io::stdin, sync::mpsc::{self, Receiver}, cell::RefCell, collections::VecDeque};
 
 use crate::cmove::Move;
 
 pub struct IoWrapper {
-    receiver: Receiver<String>
+    receiver: Receiver<String>,
+    //Lines read during a search that the main loop still has to handle
+    pending: RefCell<VecDeque<String>>
 }
 
 impl IoWrapper {
     pub fn init() -> Self {
-        Self { receiver: init_input_thread( )}
+        Self { receiver: init_input_thread( ), pending: RefCell::new(VecDeque::new()) }
+    }
+
+    ///Hands a line back, so that the next read_line returns it
+    pub fn unread_line(&self, line: String) {
+        self.pending.borrow_mut().push_back(line);
     }
 
     pub fn try_read_line(&self) -> Option<String> {
@@ -21,6 +28,7 @@ impl IoWrapper {
     }
 
     pub fn read_line(&self) -> String {
+        if let Some(line) = self.pending.borrow_mut().pop_front() { return line; }
         #[cfg(jence_verif)]
         if let Some(r) = crate::verif_driver::scripted_read_line() { return r; }
         match self.receiver.recv() {
@@ -35,7 +43,7 @@ impl IoWrapper {
     /// An input wrapper that is not connected to stdin (the verification driver owns stdin).
     pub fn verif_detached() -> Self {
         let (_tx, rx) = mpsc::channel::<String>();
-        Self { receiver: rx }
+        Self { receiver: rx, pending: RefCell::new(VecDeque::new()) }
     }
 }
 
